@@ -50,6 +50,7 @@ type c17fx struct {
 	geoms  []geom.T    // generated geometries of all types
 	models []*model.G  // their models
 	flats  [][]float64 // XY flat point sets (some > 50 points)
+	flats3 [][]float64 // XYZ point sets with repeated positions, some Z values NaN
 	rings  [][]float64 // closed XY rings
 	coords []geom.Coord
 	wkbs   [][]byte
@@ -123,6 +124,12 @@ func c17Hash(fx *c17fx) uint64 {
 		mixi(len(f))
 	}
 	for _, f := range fx.rings {
+		for _, v := range f[:cap(f)] {
+			mixf(v)
+		}
+		mixi(len(f))
+	}
+	for _, f := range fx.flats3 {
 		for _, v := range f[:cap(f)] {
 			mixf(v)
 		}
@@ -294,6 +301,28 @@ func c17Fixtures(seed uint64) *c17fx {
 		ring := starRing(r, 0, 0, 100, r.Range(3, 12))
 		fx.rings = append(fx.rings, c17Canary(withSpare(flatRing(ring, 2, nil), 16)))
 	}
+	// XYZ point sets in which positions repeat and the Z of some occurrences is NaN
+	// ("not measured"): de-duplication must not complete one occurrence from another
+	for i := 0; i < 10; i++ {
+		n := []int{4, 9, 30, 49, 50, 51, 60, 120, 7, 80}[i]
+		f := make([]float64, 0, 3*n)
+		for k := 0; k < n; k++ {
+			x, y := float64(r.Range(-6, 6)), float64(r.Range(-6, 6))
+			if i%2 == 1 {
+				x, y = float64(r.Range(-300, 300)), float64(r.Range(-300, 300))
+			}
+			z := float64(100 + k)
+			if r.Chance(1, 3) {
+				z = math.NaN()
+			}
+			f = append(f, x, y, z)
+			if r.Chance(1, 3) && len(f) < 3*n {
+				f = append(f, x, y, float64(500+k)) // the same position again, measured
+				k++
+			}
+		}
+		fx.flats3 = append(fx.flats3, c17Canary(withSpare(f, 12)))
+	}
 	for i := 0; i < 40; i++ {
 		fx.coords = append(fx.coords, geom.Coord(c17Canary(withSpare([]float64{float64(r.Range(-20, 20)), float64(r.Range(-20, 20)), float64(r.Range(-20, 20))}, 4))))
 	}
@@ -303,14 +332,17 @@ func c17Fixtures(seed uint64) *c17fx {
 	// -0, which only a bitwise look at the inputs tells from 0
 	nz := math.Copysign(0, -1)
 	for _, q := range [][12]float64{
-		{0, nz, 1, 4, nz, 2, 2, 0, 3, 6, nz, 4},    // horizontal overlap (2,0)-(4,0)
-		{nz, 0, 1, nz, 8, 2, 0, 3, 3, nz, 5, 4},    // vertical containment
-		{nz, nz, 0, 6, 6, 0, 2, 2, nz, 9, 9, 1},    // diagonal overlap
-		{4, 0, 1, 0, nz, 2, 2, nz, 3, 6, 0, 4},     // overlap, first segment reversed
-		{0, 0, nz, 5, nz, 1, 5, 0, 2, 9, 3, 3},     // end point touch at (5,0)
-		{nz, nz, 1, 10, nz, 2, 5, 0, nz, 5, 7, 4},  // T touch at (5,0)
-		{1, 1, 1, 1, 1, nz, 1, 1, 2, 4, 5, 6},      // zero-length first segment
-		{-3, nz, 5, 3, nz, 5, nz, -4, 5, nz, 4, 5}, // proper crossing at the origin
+		{0, nz, 1, 4, nz, 2, 2, 0, 3, 6, nz, 4},                                             // horizontal overlap (2,0)-(4,0)
+		{nz, 0, 1, nz, 8, 2, 0, 3, 3, nz, 5, 4},                                             // vertical containment
+		{nz, nz, 0, 6, 6, 0, 2, 2, nz, 9, 9, 1},                                             // diagonal overlap
+		{4, 0, 1, 0, nz, 2, 2, nz, 3, 6, 0, 4},                                              // overlap, first segment reversed
+		{0, 0, nz, 5, nz, 1, 5, 0, 2, 9, 3, 3},                                              // end point touch at (5,0)
+		{nz, nz, 1, 10, nz, 2, 5, 0, nz, 5, 7, 4},                                           // T touch at (5,0)
+		{1, 1, 1, 1, 1, nz, 1, 1, 2, 4, 5, 6},                                               // zero-length first segment
+		{-3, nz, 5, 3, nz, 5, nz, -4, 5, nz, 4, 5},                                          // proper crossing at the origin
+		{-48, -561, 1, 294, 609, 2, -48.00000000000001, -560.9999999999999, 3, 650, 742, 4}, // cross within an ulp of an end point
+		{-2762.9143171760657, -2277.3445764932712, 1, 596.6999235241909, 3167.547468779559, 2, -2762.9143171760657, -2277.344576493271, 3, 2797.8264950174625, 2356.6061003346695, 4}, // the same
+		{0.1, 0.3, 1, 0.4, 1.2, 2, 0.30000000000000004, 0.9000000000000001, 3, -1, 1, 4},                                                                                              // T junction up to rounding
 	} {
 		for j := 0; j < 4; j++ {
 			fx.coords = append(fx.coords, geom.Coord(c17Canary(withSpare([]float64{q[3*j], q[3*j+1], q[3*j+2]}, 4))))
@@ -501,6 +533,9 @@ var c17Registry = func() []c17fn {
 	})
 	nf := func(fx *c17fx) int { return len(fx.flats) }
 	add("xy.ConvexHullFlat", nf, func(fx *c17fx, k int) string { return gstr(xy.ConvexHullFlat(geom.XY, fx.flats[k]), nil) })
+	add("xy.ConvexHullFlat(XYZ, repeated positions, NaN Z)", func(fx *c17fx) int { return len(fx.flats3) }, func(fx *c17fx, k int) string {
+		return gstr(xy.ConvexHullFlat(geom.XYZ, fx.flats3[k]), nil) + gstr(xy.ConvexHull(geom.NewMultiPointFlat(geom.XYZ, fx.flats3[k])), nil)
+	})
 	add("xy.PointsCentroidFlat", nf, func(fx *c17fx, k int) string { return cstr(xy.PointsCentroidFlat(geom.XY, fx.flats[k])) })
 	add("xy.SimplifyFlatCoords", nf, func(fx *c17fx, k int) string { return fmt.Sprint(xy.SimplifyFlatCoords(fx.flats[k], float64(k%7), 2)) })
 	add("transform.UniqueCoords", nf, func(fx *c17fx, k int) string {
